@@ -45,7 +45,11 @@ IsAuto(o) == Has(o, "auto")
 AutoFlags(o) == IF Has(o, "fmods") THEN ModifyFlags(StrToCodes(o.fmods))[2] ELSE SetOf(o.flags)
 AutoTx(o) == Parse(H(o.tx))[2]
 AutoFunding(o) == Parse(H(o.txin))[2]
-AutoSetup(o) == Setup(AutoTx(o), AutoFunding(o), o.select, AutoFlags(o))
+\* "setupflags": the recorded deviation C03-flags-ignored as a model of its own - the tool decides WHAT to set up (which spend type) as if
+\* WITNESS, P2SH and TAPROOT were always set, and then executes under the flags given.  Sessions matched by that finding are validated a
+\* second time against this model (the verdict is then not comparable with validation under the given flags: that is the finding).
+SetupFlags(o) == IF Has(o, "setupflags") THEN AutoFlags(o) \cup {"WITNESS", "P2SH", "TAPROOT"} ELSE AutoFlags(o)
+AutoSetup(o) == Setup(AutoTx(o), AutoFunding(o), o.select, SetupFlags(o))
 AutoSpent(o, su) == IF Has(o, "spent_all") THEN [i \in 1..Len(o.spent_all) |-> [amount |-> H(o.spent_all[i][1]), script |-> H(o.spent_all[i][2])]]
                     ELSE DefaultSpent(AutoTx(o), AutoFunding(o), su)
 SigverNum == [BASE |-> 0, WITNESS_V0 |-> 1, TAPROOT |-> 2, TAPSCRIPT |-> 3]
@@ -55,8 +59,12 @@ MkSession(o) ==
                                                  ELSE LET base == SessionOf(AutoTx(o), AutoFunding(o), su, AutoFlags(o), AutoSpent(o, su))
                                                       \* --pretend-valid on a spend: the listed pairs (the verdict is then not comparable with validation)
                                                       IN [base EXCEPT !.ctx.pretend = PretendOf(o)])
-    ELSE InitSession(MkCtx(o), HexSeq(o.stack), IF Has(o, "succ") THEN H(o.succ) ELSE <<>>, NoTce,
-                IF Has(o, "weight") THEN o.weight ELSE 0)
+    ELSE LET s == InitSession(MkCtx(o), HexSeq(o.stack), IF Has(o, "succ") THEN H(o.succ) ELSE <<>>, NoTce,
+                              IF Has(o, "weight") THEN o.weight ELSE 0)
+         \* "nosuccess": the recorded deviation of the tool (known finding C01-opsuccess) as a model of its own - BIP342's OP_SUCCESSx rule is
+         \* absent and those opcodes are what they are in the older script versions.  A session matched by that finding is validated a second
+         \* time against this model, so that only executions that behave exactly like the recorded deviation are attributed to it.
+         IN IF Has(o, "nosuccess") THEN [s EXCEPT !.pre = ""] ELSE s
 
 ExpView(s) == [stack |-> s.vm.stack, alt |-> s.vm.alt, cond |-> CondView(s.vm.cond), pc |-> s.vm.pc,
                opcount |-> s.vm.opcount, cbegin |-> s.vm.cbegin, cspos |-> s.vm.cspos, oppos |-> s.vm.oppos,
@@ -130,7 +138,7 @@ DoAwaitAuto(ev) ==
 
 \* end of a --tx/--txin session: it finishes without error and with the required final stack exactly when the input is valid
 VerdictMismatch(ev, exp) ==
-    /\ IsAuto(cur) /\ "verdict" \in SetOf(cur.cmp)
+    /\ IsAuto(cur) /\ "verdict" \in SetOf(cur.cmp) /\ ~Has(cur, "setupflags")
     /\ (exp.done \/ exp.vm.status = "failed") /\ exp.vm.status # "unspec"
     /\ LET su == AutoSetup(cur)
            valid == Verdict(AutoTx(cur), AutoFunding(cur), su, AutoFlags(cur), AutoSpent(cur, su)) = ""
